@@ -100,7 +100,7 @@ func vfC15Run(e *vfEnv, r *vfResult, idx int) { //nolint:cyclop,maintidx
 	var mu sync.Mutex
 	reads := map[string][]vfC15Read{} // ufrag -> packets read from its connection
 	conns := map[string]net.PacketConn{}
-	var rwg sync.WaitGroup
+	var rwg, v6wg sync.WaitGroup
 	// one history in three: the owners poll with short read deadlines (some already expired when the read starts), as
 	// applications with their own timers do; a read that reports a timeout must not have consumed a packet
 	polling := rng.IntN(3) == 0
@@ -157,7 +157,22 @@ func vfC15Run(e *vfEnv, r *vfResult, idx int) { //nolint:cyclop,maintidx
 		}
 		conns[uf] = pc
 		startReader(uf, pc)
+		// the same ufrag may also hold a connection of the other IP family (an agent with IPv6 candidates on this mux);
+		// it goes away early or in the middle of the history and must not take the IPv4 registration with it
+		if rng.IntN(3) == 0 {
+			if pc6, err := mux.GetConnByUfrag(uf, true, net.ParseIP("::1")); err == nil {
+				delay := time.Duration(rng.IntN(3000)) * time.Microsecond
+				if rng.IntN(2) == 0 {
+					_ = pc6.Close()
+				} else {
+					v6wg.Add(1)
+					go func() { defer v6wg.Done(); time.Sleep(delay); _ = pc6.Close() }()
+				}
+				r.count("c15_ufrags_with_ipv6_conn_torn_down_early", 1)
+			}
+		}
 	}
+	defer v6wg.Wait()
 	type clientRes struct {
 		id          int
 		ufrag       string
